@@ -80,6 +80,7 @@ const (
 	feStd
 	feGrpc
 	feZapio
+	fePanicRecovered
 	nFrontEnds
 )
 
@@ -261,6 +262,19 @@ func c04do(tl *taskLogger, c *c04call) {
 		default:
 			tl.grpc.Error(msg, "|", c.pad)
 		}
+	case fePanicRecovered:
+		// an entry above Error whose terminal action the application survives:
+		// a Panic-level entry (or DPanic, which does not panic outside
+		// development) logged inside a recover, like a request handler does.
+		// It is written and synced like any other entry.
+		func() {
+			defer func() { _ = recover() }()
+			if c.seq%2 == 0 {
+				tl.l.Panic(msg, fields...)
+			} else {
+				tl.l.DPanic(msg, fields...)
+			}
+		}()
 	case feZapio:
 		// one complete line per call, delivered in two chunks through the
 		// line-splitting writer (each task owns its writers: zapio.Writer is
